@@ -131,6 +131,15 @@ def toNew (o : OldSlot) : Option Slot :=
                              nodeIndex := o.nodeIndex, nodeName := o.nodeName }
   | _, _ => none
 
+/-- `convert_slots_to_new` on a list of slots: every slot is converted on its own; one slot that
+    cannot be converted makes the call raise -/
+def toNewList : List OldSlot → Option (List Slot)
+  | []      => some []
+  | o :: os =>
+    match toNew o, toNewList os with
+    | some s, some ss => some (s :: ss)
+    | _, _            => none
+
 /-- `convert_slots_to_old` on a new slot -/
 def toOld (s : Slot) : OldSlot :=
   { cores := .lists (s.cores.map (fun ro => [ro.1])), gpus := .lists (s.gpus.map (fun ro => [ro.1])),
